@@ -10,7 +10,7 @@ import (
 
 func init() { areas["ctx"] = Area{Gen: genCtx, Exec: execCtx} }
 
-// ctx.seq <ver> <providers: p0|p1|..  each = ev,ev,..> <events: ev,ev,..> <steps: u<i> | a<j>:<sig> | m<i>:<j>>
+// ctx.seq <ver> <providers: p0|p1|..  each = ev,ev,..> <events: ev,ev,..> <steps: u<i> | a<j>:<sig> | m<i>:<j> | c<i>>
 // outcome: verdict of every a-step, comma separated. The checker is ONE allowerContext for the whole sequence
 // (created by the first u-step), exactly as state resolution reuses it.
 func execCtx(op string, args []string) string {
@@ -55,6 +55,9 @@ func execCtx(op string, args []string) string {
 			} else {
 				ctx.Update(provs[i])
 			}
+		case 'c':
+			i, _ := strconv.Atoi(st[1:])
+			provs[i].Clear()
 		case 'm':
 			parts := strings.Split(st[1:], ":")
 			i, _ := strconv.Atoi(parts[0])
@@ -203,6 +206,26 @@ func genCtx(o *Out, tier string, r *Rng) {
 				}
 			default:
 				steps = append(steps, "a"+strconv.Itoa(r.Intn(len(evs)))+":0")
+			}
+		}
+		if r.Chance(50) {
+			// state resolution's pattern: ONE provider object; for every checked event: Clear, add the state it
+			// needs (a varying subset: sometimes no join rules / power levels / create at all), update, check
+			pool := append([]*Ev{}, provs[0]...)
+			for _, p := range provs[1:] {
+				pool = append(pool, p...)
+			}
+			base := len(evs)
+			evs = append(evs, pool...) // pool events are addressed by index base+k
+			steps = []string{"u0"}
+			for k := 0; k < 3+r.Intn(6); k++ {
+				steps = append(steps, "c0")
+				for pi := range pool {
+					if r.Chance(45) {
+						steps = append(steps, "m0:"+strconv.Itoa(base+pi))
+					}
+				}
+				steps = append(steps, "u0", "a"+strconv.Itoa(r.Intn(base))+":0")
 			}
 		}
 		var ps []string
